@@ -95,6 +95,15 @@ def run_schedule(seed, kind, strategy, scratch, park=None, stick=0.9, pct_depth=
         recfs.LOG.enabled = False
     else:
         FSM = setup(lines)
+    # a quarter of the worlds run under a stalled clock: every transaction id is then the direct successor of the previous one,
+    # so snapshot bounds (last id + 1) coincide with the ids of the commits that follow
+    from zv import clock as _clock
+    import time as _time
+    stalled = seed % 4 == 1 and not packer        # (a pack time 0.1 ms after the setup would cover every id handed out under a stalled clock)
+    if stalled:
+        _clock.install(_clock.FakeClock(start=_time.time(), mode='stall'))
+    else:
+        _clock.uninstall()
     d = os.path.join(scratch, 'w')
     shutil.rmtree(d, ignore_errors=True)
     os.makedirs(d)
@@ -289,7 +298,7 @@ def run_schedule(seed, kind, strategy, scratch, park=None, stick=0.9, pct_depth=
         fails.append(('watchdog', 60))
     out = {'c02': [], 'c03': [], 'sched': fails, 'pack': pres, 'switches': s.switches, 'decisions': len(s.trace), 'digest': s.digest(),
            'locs': dict(s.locs) if collect_locs else None, 'overlap': 0, 'ok_commits': 0, 'conflicts': 0, 'reader_txns': 0, 'undos': 0,
-           'vote_failures': len([t for t in txlog if t.get('outcome') == 'VoteNo'])}
+           'vote_failures': len([t for t in txlog if t.get('outcome') == 'VoteNo']), 'stalled_clock': stalled}
     if fails:
         # the world may hold locks for ever: do not touch it again
         return out
